@@ -76,7 +76,7 @@ Section Compliance.
   Qed.
 
   Lemma cm_mon_step s a cq : cm_rel s a ->
-    exists a', cm_mon c a (model_ev (cm_step c) cm_answer s cq) = Some a'
+    exists a', mon_of (spec_unit (cm_spec c)) cm_chk (fun _ _ => true) a (model_ev (cm_step c) cm_answer s cq) = Some a'
                /\ cm_rel (step_state (cm_step c) s (fst cq)) a'.
   Proof.
     apply (@unit_mon_step _ _ _ _ _ (cm_step c) cm_answer (cm_spec c) cm_chk (fun _ _ => true) cm_rel).
@@ -225,7 +225,7 @@ Proof.
 Qed.
 
 Lemma ic_mon_step s a cq : ic_rel s a ->
-  exists a', ic_mon a (model_ev ic_step ic_answer s cq) = Some a'
+  exists a', mon_of ic_spec ic_chk (fun _ _ => true) a (model_ev ic_step ic_answer s cq) = Some a'
              /\ ic_rel (step_state ic_step s (fst cq)) a'.
 Proof.
   apply (@val_mon_step _ _ _ _ _ _ ic_step ic_answer ic_spec ic_chk (fun _ _ => true) ic_rel).
